@@ -346,14 +346,14 @@ def _parse_trace_out(text):
     return viol, (int(ok.group(1)) if ok else None), (int(mis.group(1)) if mis else None)
 
 
-def validate_trace(trace_path, runs, module, consts, name, parallel=8, timeout=900, max_mismatch_rounds=6):
+def validate_trace(trace_path, runs, module, consts, name, parallel=8, timeout=900, max_mismatch_rounds=10):
     """Validates every run of the trace against SPEC/<module>.tla (TraceSpec / TraceAccepted).
     Returns dict(lines, runs_ok, mismatches=[{run, line, event}], violations=[{inv, run, line}], states)"""
     os.makedirs(os.path.join(WORK, "tlc"), exist_ok=True)
     cfg = os.path.join(WORK, "tlc", name + ".cfg")
     write_cfg(cfg, consts, spec="TraceSpec", postcondition="TraceAccepted", deadlock=False)
     chunks, total = _split_trace(trace_path, runs, parallel)
-    res = {"lines": total, "runs_ok": 0, "mismatches": [], "violations": [], "states": 0, "errors": []}
+    res = {"lines": total, "runs_ok": 0, "mismatches": [], "violations": [], "states": 0, "errors": [], "unvalidated": []}
     pending = list(chunks)
     rounds = 0
     while pending and rounds < max_mismatch_rounds:
@@ -427,7 +427,9 @@ def validate_trace(trace_path, runs, module, consts, name, parallel=8, timeout=9
                 res["runs_ok"] += len([x for x in rs if (x["scn"], x["run"]) not in bad_runs])
         pending = nxt
     if pending:
-        res["errors"].append({"error": "too many mismatching runs; %d chunks left unvalidated" % len(pending)})
+        # too many runs that the specification cannot follow: what is left is handed back (the caller judges it with the L1-only oracle)
+        for (p, first, rs) in pending:
+            res["unvalidated"] += rs
     return res
 
 
@@ -540,6 +542,8 @@ class Check:
         self.schedules.update((r["scn"], tuple(r["choices"])) for r in runs)
         for e in v["errors"]:
             self.tool_errors.append("trace validation %s: %s" % (name, e))
+        if v["unvalidated"]:
+            self.tool_errors.append("UNVALIDATED[%s]: %d runs were left unvalidated by %s (too many runs it cannot follow)" % (name, len(v["unvalidated"]), module))
         rec = {"name": name, "module": module, "profile": profile, "runs": len(runs), "events": v["lines"], "runs_ok": v["runs_ok"],
                "mismatches": len(v["mismatches"]), "l1_violations": len(v["violations"]), "harness": summ["scenarios"]}
         self.conf_runs.append(rec)
